@@ -243,7 +243,7 @@ the SUBACK": in the state right after the SUBSCRIBE step, every decoded PUBLISH
 filter's path matches is forwarded to the connection - same topic, same
 payload, QoS min(publish QoS, return code of that filter), RETAIN 0. -/
 theorem C07_effective_after_suback_partial (b : B) (hinv : Inv b) (c id : Nat) (pre post : List (Bytes × Nat))
-    (t : Bytes) (q : Nat) (hc : c < cbBase) (hl : b.alive c = true) (ha : accepts t q = true)
+    (t : Bytes) (q : Nat) (hl : b.alive c = true) (ha : accepts t q = true)
     (hpost : ∀ tq ∈ post, accepts tq.1 tq.2 = true → (entryLevels tq.1).1 ≠ (entryLevels t).1)
     (p : Pub) (hg : good p.topic = true) (hn : validName p.topic = true) (hq : p.qos ≤ 2)
     (hid : p.pktid ≠ 0 ∨ p.qos = 0) (hm : matchLevels (entryLevels t).1 (split p.topic) = true) :
@@ -254,24 +254,14 @@ theorem C07_effective_after_suback_partial (b : B) (hinv : Inv b) (c id : Nat) (
   have hal' : (packet b c (.subscribe id (pre ++ (t, q) :: post))).1.alive c = true := by
     rw [alive_congr b _ (packet_subscribe_conns b hinv c id _ hl)]; exact hl
   obtain ⟨_, hperm⟩ := onPublish_char_gen _ p hinv' hg hn hq hid
-  have hin : dropCallRetain (delivery p c (grantCode b.topics c (t, q))) ∈
-      ((onPublish (packet b c (.subscribe id (pre ++ (t, q) :: post))).1 ⟨p, false⟩).2.2.1.map dropCallRetain) := by
-    rw [hperm.mem_iff]
-    refine List.mem_map.mpr ⟨_, List.mem_filter.mpr ⟨hmem, ?_⟩, rfl⟩
-    simp [hm, reachable, hal']
-  obtain ⟨o, ho, heq⟩ := List.mem_map.mp hin
-  have hsend : ∃ pk, delivery p c (grantCode b.topics c (t, q)) = .send c pk := by
-    simp [delivery, hc]
-  obtain ⟨pk, hpk⟩ := hsend
-  rw [hpk] at heq ⊢
-  simp only [dropCallRetain] at heq
-  rw [← dropCallRetain_send o _ _ heq]
-  exact ho
+  rw [hperm.mem_iff]
+  refine List.mem_map.mpr ⟨_, List.mem_filter.mpr ⟨hmem, ?_⟩, rfl⟩
+  simp [hm, reachable, hal']
 
 /-- "... and to none it accepts after sending the UNSUBACK": in the state right
 after the UNSUBSCRIBE step, whatever a PUBLISH makes the broker hand to `c`
 stems from a subscription of `c` under a path other than those of the listed
-filters (`dropCallRetain`: the RETAIN flag an in-process callback sees apart). -/
+filters, and is exactly the `delivery` for that subscription. -/
 theorem C07_none_after_unsuback_partial (b : B) (hinv : Inv b) (c id : Nat) (topics : List Bytes)
     (hl : b.alive c = true)
     (p : Pub) (hg : good p.topic = true) (hn : validName p.topic = true) (hq : p.qos ≤ 2)
@@ -280,21 +270,18 @@ theorem C07_none_after_unsuback_partial (b : B) (hinv : Inv b) (c id : Nat) (top
       ∃ e ∈ abs (packet b c (.unsubscribe id topics)).1.topics.sroot,
         e.2.1 = c ∧ matchLevels e.1 (split p.topic) = true ∧
         (∀ t ∈ topics, (entryLevels t).2 = true → e.1 ≠ (entryLevels t).1) ∧
-        dropCallRetain o = dropCallRetain (delivery p c e.2.2) := by
+        o = delivery p c e.2.2 := by
   intro o ho htc
   obtain ⟨hinv', _, habs, _⟩ := C07_unsubscribe_effect b hinv c id topics hl
   obtain ⟨_, hperm⟩ := onPublish_char_gen _ p hinv' hg hn hq hid
-  have hin : dropCallRetain o ∈
-      ((onPublish (packet b c (.unsubscribe id topics)).1 ⟨p, false⟩).2.2.1.map dropCallRetain) :=
-    List.mem_map.mpr ⟨o, ho, rfl⟩
-  rw [hperm.mem_iff] at hin
+  have hin := hperm.mem_iff.mp ho
   obtain ⟨e, he, heq⟩ := List.mem_map.mp hin
   obtain ⟨he1, he2⟩ := List.mem_filter.mp he
   simp only [Bool.and_eq_true] at he2
   have hce : e.2.1 = c := by
-    have h1 : target (dropCallRetain (fwd p (e.2.1, min p.qos e.2.2))) = some e.2.1 := by
-      rw [target_dropCallRetain, ← delivery_eq, target_delivery]
-    rw [heq, target_dropCallRetain, htc] at h1
+    have h1 : target (fwd { p with retain := false } (e.2.1, min p.qos e.2.2)) = some e.2.1 := by
+      rw [← delivery_eq, target_delivery]
+    rw [heq, htc] at h1
     exact (Option.some.inj h1).symm
   refine ⟨e, he1, hce, he2.1, ?_, ?_⟩
   · intro t ht hlv hpath
